@@ -7,6 +7,7 @@
 package snowflake_proxy
 
 import (
+	"crypto/tls"
 	"encoding/json"
 	"fmt"
 	"io/ioutil"
@@ -322,6 +323,35 @@ func vStartRelay(host string, port int) (*vRelay, error) {
 	}
 	go srv.Serve(ln)
 	return r, nil
+}
+
+// vStartRelayTLS is the same relay behind TLS (httptest's self-signed
+// certificate), for proxies that accept only wss relay URLs. The harness makes
+// the proxy's dialer accept that certificate with vTrustTestRelayCert.
+func vStartRelayTLS(host string, port int) (*vRelay, error) {
+	ln, err := vListen(host, port)
+	if err != nil {
+		return nil, err
+	}
+	r := &vRelay{ln: ln, host: host, port: ln.Addr().(*net.TCPAddr).Port, byKey: map[string][]*vRelayConn{}, notify: make(chan string, 1024)}
+	r.upgrade = websocket.Upgrader{CheckOrigin: func(*http.Request) bool { return true }}
+	srv := httptest.NewUnstartedServer(http.HandlerFunc(r.serve))
+	srv.Listener.Close()
+	srv.Listener = ln
+	srv.Config.ConnState = func(c net.Conn, st http.ConnState) {
+		if st == http.StateNew {
+			atomic.AddInt64(&r.tcp, 1)
+		}
+	}
+	srv.StartTLS()
+	return r, nil
+}
+
+// vTrustTestRelayCert: websocket.DefaultDialer.TLSClientConfig is the
+// library's own seam; only certificate verification of the harness's relay is
+// switched off, the proxy's URL checks and dial path are untouched.
+func vTrustTestRelayCert() {
+	websocket.DefaultDialer.TLSClientConfig = &tls.Config{InsecureSkipVerify: true}
 }
 
 func (r *vRelay) tcpAccepts() int64 { return atomic.LoadInt64(&r.tcp) }
